@@ -1,19 +1,23 @@
 """C06 - The WAL reader returns only intact entries in append order.
 
-Proof: coq/theories/Wal (byte-level model of Writer framing/rotation, ParseEnvelope,
-Reader.ReadAll/readEntry, Recovery).  C06_intact / C06_intact_ops / C06_rotation_recover (all
-entry sequences), C06_truncation (EVERY truncation offset: exactly the maximal prefix of
-complete frames), C06_corruption_refuted (one changed length byte + a frame embedded in a
-payload => fabricated entry) and C06_corruption_guarded (every position, every byte value:
-subsequence, provided a damaged length byte does not meet a ghost frame).
+Proof: coq/theories/Wal (byte-level model of Writer framing/size test/rotation, ParseEnvelope,
+Reader.ReadAll/readEntry as of commit 591fc4b, Recovery).  C06_intact / C06_intact_appends /
+C06_accepted_fits_cap / C06_rotation_recover (all sequences), C06_truncation (EVERY truncation
+offset: exactly the maximal prefix of complete frames), C06_corruption (every position, every
+byte value: subsequence; a damaged length byte needs the CRC test of the wrong-length range to
+fail - C06_length_alias_needed), C06_old_continue_fabricates (the reader before 591fc4b, model
+variant).
 
 Tie 1 (translator): the format constants are re-extracted from wal.go, evaluated by the Go
 compiler, written to coq/gen/Params_Wal.v; Obligations.v re-checks the layout facts.
-Tie 2 (correspondence): the REAL wal.Writer (incl. rotation) writes generated append sequences
-(raw, enveloped, row format); for every file EVERY truncation offset and every single-byte
-substitution from a small alphabet per position (full alphabet on the low length byte) is
-read back with the REAL Reader.ReadAll (plus Recovery runs); observations are compared inside
-Coq with read_all on the same bytes, and the property itself is evaluated on the observations.
+Tie 2 (correspondence): the REAL wal.Writer (incl. rotation and its size test; caller-owned
+buffers overwritten right after each call, half of the logs with the writer goroutine held
+off the queue) writes generated append sequences (raw, enveloped, row format); for every file
+EVERY truncation offset and every single-byte substitution from a small alphabet per position
+(full alphabet on the low length byte) is read back with the REAL Reader.ReadAll (plus Recovery
+runs); observations are compared inside Coq with read_all on the same bytes, and the property
+itself is evaluated on the observations.  A second build with MaxWALPayloadSize lowered by a
+textual overlay exercises the size cap of writer and reader at the boundary.
 """
 import hashlib
 import json
@@ -32,16 +36,16 @@ AREA = "Wal"
 P = "Arc.Wal.Props"
 O = "Arc.Wal.Obligations"
 # plain names: one coqc run prints the assumptions of all of them (Props and Obligations loaded together)
-THEOREMS = ["C06_intact", "C06_intact_ops", "C06_rotation_recover", "C06_truncation", "C06_truncation_prefix_maximal",
-            "C06_reader_terminates", "C06_corruption_refuted", "C06_corruption_guarded", "C06_ghost_cert_sound",
-            "C06_guarded_hypotheses_satisfiable", "C06_excluded_class_nonempty", "C06_no_panic_needed",
-            "C06_intact_truncation_nonvacuous",
+THEOREMS = ["C06_intact", "C06_intact_appends", "C06_accepted_fits_cap", "C06_rotation_recover", "C06_truncation",
+            "C06_truncation_prefix_maximal", "C06_reader_terminates", "C06_corruption", "C06_length_alias_needed",
+            "C06_old_continue_fabricates", "C06_corruption_hypotheses_satisfiable", "C06_intact_truncation_nonvacuous",
+            "C06_append_outcomes", "C06_envelope_length_no_wrap",
             "C06_params_layout", "C06_params_header_accepted"]
 MODULES = [P, O]
 TIE_NAME = "C06 correspondence (wal.Writer / Reader.ReadAll / Recovery vs Arc.Wal.Model.writer_files / read_all / recover) / Params_Wal"
 HDR = 7
-SIG_GHOST = "length-byte-corruption+frame-embedded-in-payload"
-SIG_PANIC = "appended-payload-01-ffxx-envelope-length-wraps"
+CAP_ANCHOR = ("MaxWALPayloadSize = 100 * 1024 * 1024", "MaxWALPayloadSize = %d", 1)
+LOW_CAP = 120          # MaxWALPayloadSize of the boundary build
 
 
 # ---------------------------------------------------------------------------------------------
@@ -90,38 +94,92 @@ def gen_op(rng):
     return {"k": "meta", "db": rng.choice([b"", b"d"]).hex(), "p": edge.hex()}
 
 
+def scribble_variant(p):
+    """What the caller's buffer holds after it was recycled for the next request: the same columnar payload with
+    another measurement name (same length, still decodable), or None (the harness fills with 'Z')."""
+    if len(p) > 5 and p[0] == 0x82 and p[1:3] == b"\xa1m" and 0xa1 <= p[3] <= 0xbf:
+        return p[:4] + bytes([p[4] ^ 0x03]) + p[5:]
+    return None
+
+
+def with_scribble(op):
+    if op["k"] in ("raw", "meta"):
+        v = scribble_variant(bytes.fromhex(op["p"]))
+        if v is not None:
+            op = dict(op, scr=v.hex())
+    return op
+
+
 def gen_log(rng, lid):
-    ops = [gen_op(rng) for _ in range(rng.randint(2, 4))]
+    ops = [with_scribble(gen_op(rng)) for _ in range(rng.randint(2, 4))]
     max_size = rng.choice([0, 0, 0, 60, 90, 130, 200])
-    return {"id": lid, "max_size": max_size, "ops": ops, "tag": "gen"}
+    hold = lid % 2 == 1 and all(o["k"] != "rows" for o in ops)     # hold mode reads timestamps back by size: no Append(records)
+    return {"id": lid, "max_size": max_size, "ops": ops, "tag": "gen-hold" if hold else "gen", "hold": hold}
+
+
+def boundary_logs(cap):
+    """Appends whose on-disk payload size is cap-1, cap, cap+1 (raw and enveloped), each followed by an ordinary
+    entry; run against the build whose MaxWALPayloadSize is `cap`."""
+    tail = W.mp_columnar("t", {"v": [1]})
+
+    def doc(n):
+        # a row-format document of exactly n bytes: [ {"k": "<pad>"} ]
+        padlen = n - (1 + 1 + 2 + 2)                              # 0x91 0x81 a1 'k' d9 LL <pad>
+        assert 0 <= padlen < 256
+        return bytes([0x91, 0x81, 0xa1, 0x6b, 0xd9, padlen]) + b"p" * padlen
+    logs = []
+    lid = 300
+    for k in (-1, 0, 1):
+        logs.append({"id": lid, "max_size": 0, "tag": "boundary-raw%+d" % k, "hold": False, "light": True,
+                     "ops": [{"k": "raw", "p": tail.hex()}, {"k": "raw", "p": doc(cap + k).hex()}, {"k": "raw", "p": tail.hex()}]})
+        lid += 1
+        for db in (b"", b"ab"):
+            n = cap - 3 - len(db) + k
+            logs.append({"id": lid, "max_size": 0, "tag": "boundary-meta%+d" % k, "hold": (lid % 2 == 0), "light": True,
+                         "ops": [{"k": "raw", "p": tail.hex()}, {"k": "meta", "db": db.hex(), "p": doc(n).hex()},
+                                 {"k": "meta", "db": b"d".hex(), "p": tail.hex()}]})
+            lid += 1
+    return logs
 
 
 def witness_logs():
-    """Refutation witnesses (run first).  A: the Coq witness of C06_corruption_refuted - enveloped
-    columnar write whose string ends with a complete frame; B: plain columnar payload with an
-    embedded frame at payload offset 32 (oversize length => the reader strides through the
-    payload); C: appended payload on which ParseEnvelope's uint16 arithmetic wraps."""
+    """Regression logs (run first).  A: the witness against the reader before 591fc4b - enveloped columnar write
+    whose string ends with a complete frame; B: plain columnar payload with an embedded frame at payload offset 32
+    (oversize length => the old reader strode through the payload); C: appended payload on which the old
+    ParseEnvelope's uint16 arithmetic wrapped; D: a 256-byte database name (AppendRawWithMeta panics, nothing is
+    written); E: crafted payload whose 14-byte prefix has the CRC-32 of all 18 bytes (C06_length_alias_needed)."""
     evil = W.mp_val([{"_database": "other", "_measurement": "cpu", "v": 666}])
     evil_frame = W.frame(1700000000000001, evil)
     outer = bytes([0x82]) + W.mp_str("m") + W.mp_str("cpu") + W.mp_str("columns") + bytes([0x81]) + W.mp_str("note") + \
         bytes([0x91]) + W.mp_str(b"x" + evil_frame)
     e0 = W.mp_columnar("cpu", {"v": [1, 2]})
-    a = {"id": 0, "max_size": 0, "tag": "witness-ghost-short-length", "full_len": True, "ops": [
+    a = {"id": 0, "max_size": 0, "tag": "regress-ghost-short-length", "full_len": True, "hold": False, "ops": [
         {"k": "raw", "p": e0.hex()},
         {"k": "meta", "db": b"mydb".hex(), "p": outer.hex()},
         {"k": "rows", "rows": [{"_database": "mydb", "_measurement": "mem", "u": 7.0}]}]}
-    # B: {"m":"cpu","columns":{"s":[str]}}: string content starts at payload offset 21; 11 pad bytes
     head = bytes([0x82]) + W.mp_str("m") + W.mp_str("cpu") + W.mp_str("columns") + bytes([0x81]) + W.mp_str("s") + bytes([0x91])
     body = b"k" * 11 + evil_frame
     pb = head + W.mp_str(body)
     assert len(head) + 2 == 21 and (len(head) + 2 + 11) % 16 == 0
-    b = {"id": 1, "max_size": 0, "tag": "witness-ghost-oversize-stride", "full_len": True, "ops": [
+    b = {"id": 1, "max_size": 0, "tag": "regress-ghost-oversize-stride", "full_len": True, "hold": True, "ops": [
         {"k": "raw", "p": pb.hex()},
         {"k": "raw", "p": e0.hex()}]}
-    c = {"id": 2, "max_size": 0, "tag": "witness-envelope-wrap-panic", "light": True, "ops": [
+    c = {"id": 2, "max_size": 0, "tag": "regress-envelope-length-wrap", "light": True, "hold": False, "ops": [
         {"k": "raw", "p": e0.hex()},
-        {"k": "raw", "p": "01fffd00"}]}
-    return [a, b, c]
+        {"k": "raw", "p": "01fffd00"},
+        {"k": "raw", "p": e0.hex()}]}
+    d = {"id": 3, "max_size": 0, "tag": "edge-dbname-256", "light": True, "hold": False, "ops": [
+        {"k": "meta", "db": (b"d" * 255).hex(), "p": e0.hex()},
+        {"k": "meta", "db": (b"d" * 256).hex(), "p": e0.hex()},
+        {"k": "raw", "p": e0.hex()}]}
+    e = {"id": 4, "max_size": 0, "tag": "length-alias", "full_len": True, "hold": True, "ops": [
+        {"k": "raw", "p": "82a16da163a7636f6c756d6e73805e89b259"},
+        {"k": "raw", "p": e0.hex()}]}
+    return [with_ops_scribble(x) for x in (a, b, c, d, e)]
+
+
+def with_ops_scribble(lg):
+    return dict(lg, ops=[with_scribble(o) for o in lg["ops"]])
 
 
 def literal_files(rng, params):
@@ -162,7 +220,7 @@ def literal_files(rng, params):
 ALPHA = [0x00, 0x01, 0x80, 0xff]
 
 
-def enumerate_muts(data, fidx, frames, full_len=False, light=False, nosweep=False):
+def enumerate_muts(data, fidx, frames, full_len=False, light=False, nosweep=False, mini=False):
     """Every truncation offset, and for every position every byte of the small alphabet
     {00,01,80,FF, orig^01, orig^80, orig+1}; all 255 other values on the low length byte of every
     genuine frame (all four length bytes for the witness logs)."""
@@ -185,9 +243,9 @@ def enumerate_muts(data, fidx, frames, full_len=False, light=False, nosweep=Fals
             lenpos.add(o + 2)       # (the two high bytes get the small alphabet: every value there makes the
                                     #  real reader allocate 64 KB - 100 MB before it notices the file is short)
     for i in range(len(data)):
-        if light and i not in lenpos and i % 5:
+        if (light or mini) and i not in lenpos and i % 5:
             continue
-        if i in lenpos:
+        if i in lenpos and not mini:
             vals = range(256)
         else:
             vals = ALPHA + [data[i] ^ 0x01, data[i] ^ 0x80, (data[i] + 1) & 0xff]
@@ -231,23 +289,23 @@ def pack_muts(muts, obs_idx):
 
 
 def log_to_coq(name, lg):
-    """lg: dict with maxsize, literal, ops [(kind, ts, dbhex, phex)], hook [hex], files [hex], classes, entries,
-    obs (distinct), muts, mut_obs, recs, rec_obs, certs"""
+    """lg: dict with maxsize, maxp, literal, ops [(kind, ts, dbhex, phex)], outcomes, hook [hex], files [hex], classes,
+    entries, obs (distinct), muts, mut_obs, recs, rec_obs"""
     ops = "; ".join("(%d, %d, %s, %s)" % (k, ts, bs(db), bs(p)) for (k, ts, db, p) in lg["ops"])
     classes = "; ".join("(%s, %d, %d)" % (bs(c["p"]), c["kind"], c["fp"]) for c in lg["classes"])
     entries = "; ".join("(%d, %d, %s, %d)" % (e["ts"], e["kind"], bs(e["db"]), e["fp"]) for e in lg["entries"])
     obs = "; ".join("(%d, [%s], %d)" % (st, "; ".join(str(i) for i in es), c) for (st, es, c) in lg["obs"])
-    certs = "; ".join("(%d, %d, %d)" % c for c in lg["certs"])
-    src = "Definition %s : wlog := mkLog %d %s\n  [%s]\n  [%s]\n  [%s]\n  [%s]\n  [%s]\n  [%s]\n  %s\n  %s\n  [%s].\n" % (
-        name, lg["maxsize"], "true" if lg["literal"] else "false", ops,
+    src = "Definition %s : wlog := mkLog %d %d %s\n  [%s]\n  [%s]\n  [%s]\n  [%s]\n  [%s]\n  [%s]\n  [%s]\n  %s\n  %s.\n" % (
+        name, lg["maxsize"], lg["maxp"], "true" if lg["literal"] else "false", ops,
+        "; ".join(str(x) for x in lg["outcomes"]),
         "; ".join(bs(h) for h in lg["hook"]), "; ".join(bs(h) for h in lg["files"]),
-        classes, entries, obs, pack_muts(lg["muts"], lg["mut_obs"]), pack_muts(lg["recs"], lg["rec_obs"]), certs)
+        classes, entries, obs, pack_muts(lg["muts"], lg["mut_obs"]), pack_muts(lg["recs"], lg["rec_obs"]))
     src += "Eval vm_compute in (%s, check_log %s).\n" % (name.split("_")[1], name)
     return src
 
 
 HEADER = "From Coq Require Import List NArith.\nFrom Arc Require Import Wal.Model.\nImport ListNotations.\nOpen Scope N_scope.\n"
-FIELDS = ["v_disagree", "v_oracle", "v_unexplained", "v_rdisagree", "v_roracle", "v_runexplained"]
+FIELDS = ["v_disagree", "v_oracle", "v_rdisagree", "v_roracle"]
 
 
 def parse_verdicts(out):
@@ -298,44 +356,43 @@ def eval_logs(logs, tag, workers=8):
 # running the implementation
 # ---------------------------------------------------------------------------------------------
 
-def write_logs(logs, tag):
-    """Real Writer.  Returns per log: files (bytes), ops as the model sees them (kind, ts, db, payload)."""
-    out = W.run_harness(PID, {"mode": "write", "logs": [{"id": l["id"], "max_size": l["max_size"], "ops": l["ops"]} for l in logs]}, tag + "_w")
+def outcome_code(err):
+    return 0 if not err else 2 if err.startswith("panic") else 1
+
+
+def write_logs(logs, tag, rewrites=None):
+    """Real Writer.  Returns per log: files (bytes), all ops as the model sees them (kind, ts, db, payload; ts 0 for a
+    refused call), the observed outcome of every call, the payloads the replication hook saw."""
+    req = {"mode": "write", "logs": [{"id": l["id"], "max_size": l["max_size"], "hold": bool(l.get("hold")), "ops": l["ops"]} for l in logs]}
+    out = W.run_harness(PID, req, tag + "_w", rewrites=rewrites)
     if len(out["logs"]) != len(logs):
         raise vlib.TieBroken("harness returned %d logs for %d" % (len(out["logs"]), len(logs)))
     res = []
     for l, o in zip(logs, out["logs"]):
-        if o["dropped"] or any(o["errs"]) or len(o["hook"]) != len(l["ops"]):
-            raise vlib.TieBroken("writer refused an append of log %s: errs=%s dropped=%s" % (l["id"], o["errs"], o["dropped"]))
-        ops = []
-        for op, h in zip(l["ops"], o["hook"]):
+        if o["dropped"] or len(o["errs"]) != len(l["ops"]):
+            raise vlib.TieBroken("writer dropped an append of log %s (async buffer full?): dropped=%s" % (l["id"], o["dropped"]))
+        hooks = list(o["hook"])
+        ops, hook = [], []
+        for op, err in zip(l["ops"], o["errs"]):
+            h = hooks.pop(0) if (not err and hooks) else {"ts": 0, "p": ""}
             if op["k"] == "meta":
                 ops.append((1, h["ts"], op["db"], op["p"]))
+                mine = W.envelope(bytes.fromhex(op["db"]), bytes.fromhex(op["p"])).hex()
             elif op["k"] == "raw":
                 ops.append((0, h["ts"], "", op["p"]))
+                mine = op["p"]
             else:                              # Append(records): the payload is msgpack.Marshal(records), as the hook saw it
                 ops.append((0, h["ts"], "", h["p"]))
-        res.append({"files": [bytes.fromhex(f) for f in o["files"]], "ops": ops, "hook": [h["p"] for h in o["hook"]],
-                    "names": o["names"]})
+                mine = h["p"]
+            if not err:
+                # hold mode has no hook: the payload the model must find on disk is the one handed to the call
+                hook.append(mine if l.get("hold") else h["p"])
+        res.append({"files": [bytes.fromhex(f) for f in o["files"]], "ops": ops, "hook": hook,
+                    "outcomes": [outcome_code(e) for e in o["errs"]], "errs": o["errs"], "names": o["names"]})
     return res, out.get("params", {})
 
 
-def ghost_certs(files):
-    """Candidate certificates (file, offset in the frame area, length): CRC-valid ranges that are not
-    genuine frames.  Only candidates - Coq checks them (ghost_cert)."""
-    import zlib
-    certs = []
-    for fi, data in enumerate(files):
-        genuine = set(W.genuine_frames(data))
-        for o in range(HDR, len(data) - 15):
-            ln = struct.unpack(">I", data[o:o + 4])[0]
-            if o + 16 + ln <= len(data) and (o, ln) not in genuine and ln > 0:
-                if zlib.crc32(data[o + 16:o + 16 + ln]) & 0xffffffff == struct.unpack(">I", data[o + 12:o + 16])[0]:
-                    certs.append((fi, o - HDR, ln))
-    return certs[:8]
-
-
-def read_items(items, tag):
+def read_items(items, tag, rewrites=None):
     """items: [{id, files:[bytes], muts, recover}] -> harness output (items in order).  Runs in batches: one
     test process reads at most ~60 000 mutated files (it runs with the collector off, see lib_wal.run_harness)."""
     batches, cur, n = [], [], 0
@@ -352,7 +409,7 @@ def read_items(items, tag):
         req = {"mode": "read", "items": [{"id": it["id"], "files": [f.hex() for f in it["files"]], "muts": it["muts"], "recover": it["recs"],
                                           "frames": [[[o + 16, ln] for (o, ln) in W.genuine_frames(f)] for f in it["files"]]}
                                          for it in batch]}
-        out = W.run_harness(PID, req, "%s_r%d" % (tag, bi), timeout=1500)
+        out = W.run_harness(PID, req, "%s_r%d" % (tag, bi), timeout=1500, rewrites=rewrites)
         if len(out["items"]) != len(batch):
             raise vlib.TieBroken("harness returned %d items for %d" % (len(out["items"]), len(batch)))
         for it, o in zip(batch, out["items"]):
@@ -381,15 +438,16 @@ def build_log(it, o):
     obs = [None] * len(table)
     for k, i in table.items():
         obs[i] = (k[0], list(k[1]), k[2])
-    return {"maxsize": it["maxsize"], "literal": it["literal"], "ops": it["ops"], "hook": it["hook"],
-            "files": [f.hex() for f in it["files"]], "classes": o["classes"], "entries": o["entries"], "obs": obs,
-            "muts": it["muts"], "mut_obs": mut_obs, "recs": it["recs"], "rec_obs": rec_obs, "certs": it["certs"]}
+    return {"maxsize": it["maxsize"], "maxp": it["maxp"], "literal": it["literal"], "ops": it["ops"], "outcomes": it["outcomes"],
+            "hook": it["hook"], "files": [f.hex() for f in it["files"]], "classes": o["classes"], "entries": o["entries"], "obs": obs,
+            "muts": it["muts"], "mut_obs": mut_obs, "recs": it["recs"], "rec_obs": rec_obs}
 
 
-def make_item(iid, files, ops, hook, maxsize, literal, rng, full_len=False, light=False, nrec=10, tag="", nosweep=False):
+def make_item(iid, files, ops, hook, maxsize, literal, rng, maxp, outcomes=None, full_len=False, light=False, nrec=10, tag="", nosweep=False,
+              mini=False):
     muts = []
     for fi, data in enumerate(files):
-        muts += enumerate_muts(data, fi, W.genuine_frames(data), full_len=full_len, light=light, nosweep=nosweep)
+        muts += enumerate_muts(data, fi, W.genuine_frames(data), full_len=full_len, light=light, nosweep=nosweep, mini=mini)
     subst = [m for m in muts if m["k"] != "n"]
     recs = [{"f": 0, "k": "n", "p": 0, "b": 0}]
     if len(files) > 1:          # every file of a rotated log: unreadable (magic), torn in the middle
@@ -398,13 +456,9 @@ def make_item(iid, files, ops, hook, maxsize, literal, rng, full_len=False, ligh
             if len(data) > HDR:
                 recs.append({"f": fi, "k": "t", "p": (len(data) + HDR) // 2, "b": 0})
     recs += rng.sample(subst, min(nrec, len(subst))) if subst else []
-    return {"id": iid, "files": files, "ops": ops, "hook": hook, "maxsize": maxsize or 104857600, "literal": literal,
-            "muts": muts, "recs": recs, "certs": ghost_certs(files) if not literal else [], "tag": tag}
+    return {"id": iid, "files": files, "ops": ops, "hook": hook, "maxsize": maxsize or 104857600, "maxp": maxp, "literal": literal,
+            "outcomes": outcomes if outcomes is not None else [0] * len(ops), "muts": muts, "recs": recs, "tag": tag}
 
-
-# ---------------------------------------------------------------------------------------------
-# the check
-# ---------------------------------------------------------------------------------------------
 
 def setup():
     W.translate_params()
@@ -431,19 +485,26 @@ def item_from_case(c, iid, tag):
     ops = [tuple(o) for o in c.get("ops", [])]
     literal = c.get("literal", not ops)
     m = c["mut"]
-    it = {"id": iid, "files": files, "ops": ops, "hook": c.get("hook", []), "maxsize": c.get("maxsize", 104857600),
-          "literal": literal, "muts": [m] if not c.get("recovery") else [], "recs": [m] if c.get("recovery") else [],
-          "certs": [] if literal else ghost_certs(files), "tag": tag}
-    return it
+    return {"id": iid, "files": files, "ops": ops, "hook": c.get("hook", []), "maxsize": c.get("maxsize", 104857600),
+            "maxp": c.get("maxp", 104857600), "outcomes": c.get("outcomes", [0] * len(ops)),
+            "literal": literal, "muts": [m] if not c.get("recovery") else [], "recs": [m] if c.get("recovery") else [], "tag": tag}
 
 
 def case_of(it, m, recovery=False):
-    return {"files": [f.hex() for f in it["files"]], "ops": [list(o) for o in it["ops"]], "hook": it["hook"],
-            "maxsize": it["maxsize"], "literal": it["literal"], "mut": m, "recovery": recovery, "tag": it.get("tag", "")}
+    return {"files": [f.hex() for f in it["files"]], "ops": [list(o) for o in it["ops"]], "hook": it["hook"], "outcomes": it["outcomes"],
+            "maxsize": it["maxsize"], "maxp": it["maxp"], "literal": it["literal"], "mut": m, "recovery": recovery, "tag": it.get("tag", "")}
+
+
+def cap_rewrites(maxp):
+    return None if maxp == REAL_CAP[0] else {W.WAL_GO: [(CAP_ANCHOR[0], CAP_ANCHOR[1] % maxp, CAP_ANCHOR[2])]}
+
+
+REAL_CAP = [104857600]
 
 
 def evaluate(items, tag):
-    out = read_items(items, tag)
+    """items of ONE build (same maxp)"""
+    out = read_items(items, tag, rewrites=cap_rewrites(items[0]["maxp"]) if items else None)
     logs = {"log_%d" % it["id"]: build_log(it, o) for it, o in zip(items, out["items"])}
     verdicts = eval_logs(logs, tag)
     return out, logs, verdicts
@@ -467,16 +528,40 @@ def shrink_case(it, m, recovery, still_bad, budget=6):
             if cm["k"] != "n" and cm["p"] >= o + 16 + ln:
                 cm["p"] -= 16 + ln
             budget -= 1
-            cit = {"id": 0, "files": [cand], "ops": [], "hook": [], "maxsize": 104857600, "literal": True,
-                   "muts": [] if recovery else [cm], "recs": [cm] if recovery else [], "certs": [], "tag": "shrink"}
+            cit = {"id": 0, "files": [cand], "ops": [], "hook": [], "outcomes": [], "maxsize": 104857600, "maxp": it["maxp"], "literal": True,
+                   "muts": [] if recovery else [cm], "recs": [cm] if recovery else [], "tag": "shrink"}
             if still_bad(cit):
                 cur_file, cur_m = cand, cm
                 changed = True
                 break
             if budget <= 0:
                 break
-    return {"id": 0, "files": [cur_file], "ops": [], "hook": [], "maxsize": 104857600, "literal": True,
-            "muts": [], "recs": [], "certs": [], "tag": "shrunk from " + str(it.get("tag", ""))}, cur_m
+    return {"id": 0, "files": [cur_file], "ops": [], "hook": [], "outcomes": [], "maxsize": 104857600, "maxp": it["maxp"], "literal": True,
+            "muts": [], "recs": [], "tag": "shrunk from " + str(it.get("tag", ""))}, cur_m
+
+
+def size_probe(params):
+    """Thorough tier: the writer's size test at the REAL cap (100 MB payloads).  Nothing this large is evaluated
+    in Coq; outcome, file size and the number of entries read back are compared with the arithmetic of
+    Model.append_outcome / frame (3 + len(db) + len(p) <= cap; 16 + payload bytes per frame)."""
+    cap = params["MaxWALPayloadSize"]
+    ops, expect = [], []
+    for kind, db, n in (("raw", b"", cap), ("raw", b"", cap + 1), ("meta", b"ab", cap - 5), ("meta", b"ab", cap - 4),
+                        ("meta", b"", cap - 3), ("meta", b"", cap - 2), ("meta", b"ab", cap)):
+        ops.append({"k": kind, "db": db.hex(), "n": n, "p": ""})
+        disk = n + (3 + len(db) if kind == "meta" else 0)
+        expect.append((disk <= cap, disk))
+    ops.append({"k": "raw", "p": W.mp_columnar("t", {"v": [1]}).hex()})
+    expect.append((True, len(bytes.fromhex(ops[-1]["p"]))))
+    out = W.run_harness(PID, {"mode": "write", "logs": [{"id": 900, "max_size": 0, "nofiles": True, "ops": ops}]}, "sizeprobe", timeout=1500)
+    lo = out["logs"][0]
+    want_codes = [0 if ok else 1 for ok, _ in expect]
+    want_size = HDR + sum(16 + d for ok, d in expect if ok)
+    got_codes = [outcome_code(e) for e in lo["errs"]]
+    ok = got_codes == want_codes and lo["sizes"] == [want_size] and lo["counts"] == [sum(1 for okk, _ in expect if okk)]
+    return ok, {"ops": [(o["k"], o["db"], o.get("n") or len(o["p"]) // 2) for o in ops], "expected_outcomes": want_codes, "observed_outcomes": got_codes,
+                "expected_file_size": want_size, "observed_file_sizes": lo["sizes"], "expected_entries": sum(1 for okk, _ in expect if okk),
+                "observed_entries": lo["counts"], "errs": lo["errs"]}
 
 
 def run(res, tier, seed):
@@ -487,17 +572,19 @@ def run(res, tier, seed):
     finally:
         res.stage("translate_params", t0)
     res.cov["params"] = params
+    REAL_CAP[0] = cap = params["MaxWALPayloadSize"]
 
     failed = vlib.std_proof_stage(res, PID, AREA, MODULES, THEOREMS, extra_targets=["theories/Wal/Obligations.vo"])
     res.cov["trusted_base"] += [
         "CRC-32 is a parameter of the theorems with two premises: crc p < 2^32 and `one changed byte changes the checksum` (true of CRC-32: any error burst of <= 32 bits is detected); the run checks the second premise against hash/crc32 on every payload substitution it performs and evaluates the model with an executable Gallina CRC-32 whose agreement with hash/crc32 is checked through the writer tie (checksum field of every frame)",
         "msgpack decoding at the end of readEntry (msgpack.Unmarshal into []map / map + parseColumnarEntry) is a parameter `classify` of the theorems (nothing assumed about it); the run instantiates it with the verdicts and content fingerprints the real library gives for every CRC-valid candidate payload of every mutated file (harness: verifClassify, a copy of the last 15 lines of readEntry)",
-        "file system: a file is the byte string ReadAll sees; process-crash model (a truncated file is a prefix of the written bytes); Writer's age-based rotation, fsync modes and the async channel (entries dropped when full) are not modelled",
+        "file system: a file is the byte string ReadAll sees; process-crash model (a truncated file is a prefix of the written bytes); Writer's age-based rotation, fsync modes and the async channel (entries dropped when full) are not modelled; the order in which the writer goroutine dequeues is the order of the calls (one caller)",
         "timestamps are outside the CRC and outside the property: a damaged timestamp is returned as is (model and theorem say so; Recovery never uses it)",
+        "the boundary build: internal/wal/wal.go with the text `%s` replaced by a cap of %d bytes (overlay generated from the current source; a missing anchor breaks the tie)" % (CAP_ANCHOR[0], LOW_CAP),
     ]
 
     # ---- cases ----
-    nlogs = int(os.environ.get("VERIF_C06_LOGS") or (8 if tier == "quick" else 100))
+    nlogs = int(os.environ.get("VERIF_C06_LOGS") or (6 if tier == "quick" else 100))
     t1 = time.time()
     wl = witness_logs()
     gl = [gen_log(rng, 10 + i) for i in range(nlogs)]
@@ -508,33 +595,46 @@ def run(res, tier, seed):
             raise vlib.TieBroken("constant %s: translator says %s, package says %s" % (name, params[name], hparams.get(k)))
     items = []
     for l, w in zip(wl + gl, written):
-        items.append(make_item(l["id"], w["files"], w["ops"], w["hook"], l["max_size"], False, rng,
+        items.append(make_item(l["id"], w["files"], w["ops"], w["hook"], l["max_size"], False, rng, cap, outcomes=w["outcomes"],
                                full_len=l.get("full_len", False), light=l.get("light", False), tag=l["tag"]))
     lits = literal_files(rng, params)
     for i, f in enumerate(lits):
-        huge = len(f) >= 11 and params["MaxWALPayloadSize"] // 2 <= struct.unpack(">I", f[7:11])[0] <= params["MaxWALPayloadSize"]
-        items.append(make_item(1000 + i, [f], [], [], 0, True, rng, light=(tier == "quick" and i % 4 != 0), nrec=3, tag="literal",
+        huge = len(f) >= 11 and cap // 2 <= struct.unpack(">I", f[7:11])[0] <= cap
+        items.append(make_item(1000 + i, [f], [], [], 0, True, rng, cap, light=(tier == "quick" and i % 4 != 0), nrec=3, tag="literal",
                                nosweep=huge))
     items = corpus_items(rng, 5000) + items
+    # the boundary build (cap lowered by overlay): writer and reader at cap-1, cap, cap+1
+    bl = boundary_logs(LOW_CAP)
+    bwritten, bparams = write_logs(bl, tier + "_b", rewrites=cap_rewrites(LOW_CAP))
+    if bparams.get("max_payload") != LOW_CAP:
+        raise vlib.TieBroken("boundary build: MaxWALPayloadSize is %s, expected %d" % (bparams.get("max_payload"), LOW_CAP))
+    bitems = [make_item(l["id"], w["files"], w["ops"], w["hook"], l["max_size"], False, rng, LOW_CAP, outcomes=w["outcomes"],
+                        mini=True, nrec=4, tag=l["tag"]) for l, w in zip(bl, bwritten)]
     res.stage("generate_and_write", t1)
 
     t2 = time.time()
     out = read_items(items, tier)
+    bout = read_items(bitems, tier + "_b", rewrites=cap_rewrites(LOW_CAP))
     res.stage("impl_harness", t2)
     t3 = time.time()
-    logs = {"log_%d" % it["id"]: build_log(it, o) for it, o in zip(items, out["items"])}
+    allitems = items + bitems
+    allout = out["items"] + bout["items"]
+    logs = {"log_%d" % it["id"]: build_log(it, o) for it, o in zip(allitems, allout)}
     verdicts = eval_logs(logs, tier)
     res.stage("coq_eval", t3)
 
     # ---- numbers ----
-    nreads = sum(len(it["muts"]) for it in items)
-    nrecs = sum(len(it["recs"]) for it in items)
+    nreads = sum(len(it["muts"]) for it in allitems)
+    nrecs = sum(len(it["recs"]) for it in allitems)
     distinct = set()
     hist = {"mutation": {"none": 0, "truncate": 0, "substitute": 0}, "position": {}, "status": {"ok": 0, "err": 0, "panic": 0},
-            "logs": {}, "entries_returned": {}, "files_per_log": {}}
-    for it, o in zip(items, out["items"]):
-        hist["logs"][it["tag"].split(":")[0]] = hist["logs"].get(it["tag"].split(":")[0], 0) + 1
+            "logs": {}, "entries_returned": {}, "files_per_log": {}, "append_outcomes": {"ok": 0, "error": 0, "panic": 0}}
+    for it, o in zip(allitems, allout):
+        key = re.sub(r"[-+]?\d+$", "", it["tag"].split(":")[0])
+        hist["logs"][key] = hist["logs"].get(key, 0) + 1
         hist["files_per_log"][str(len(it["files"]))] = hist["files_per_log"].get(str(len(it["files"])), 0) + 1
+        for c in it["outcomes"]:
+            hist["append_outcomes"][("ok", "error", "panic")[c]] += 1
         fh = [hashlib.sha1(f).hexdigest()[:12] for f in it["files"]]
         frames = [W.genuine_frames(f) for f in it["files"]]
         nontriv_log = len(it["ops"]) >= 2
@@ -552,66 +652,69 @@ def run(res, tier, seed):
     res.cov["distinct_nontrivial"] = len(distinct)
     res.cov["exhaustive"] = True
     res.cov["rule"] = ("per written log (2-4 appends: raw columnar, enveloped, row format, replication-style pre-enveloped, edge payloads; "
-                       "some rotating at 60-200 bytes) and per malformed literal file: EVERY truncation offset and, for EVERY byte position, "
-                       "every substitution from {00,01,80,FF,orig^01,orig^80,orig+1} (all 255 values on the low length byte of every frame; on all "
-                       "four length bytes of the witness logs) - exhaustive per log; each mutated file read with the real Reader.ReadAll and "
-                       "compared with read_all in Coq; plus Recovery runs over the whole directory.  Non-trivial = the log has >= 2 entries and "
-                       "the mutation is inside the file body (offset >= 7); distinct by (file bytes, mutation)")
+                       "some rotating at 60-200 bytes; every payload/database buffer overwritten right after the call, every second log with "
+                       "the writer goroutine held off the queue meanwhile) and per malformed literal file: EVERY truncation offset and, for EVERY "
+                       "byte position, every substitution from {00,01,80,FF,orig^01,orig^80,orig+1} (all 255 values on the low length byte of every "
+                       "frame; on the two low length bytes of the regression logs) - exhaustive per log; each mutated file read with the real "
+                       "Reader.ReadAll and compared with read_all in Coq; plus Recovery runs over the whole directory; plus the boundary build "
+                       "(cap lowered to %d bytes: appends of cap-1, cap, cap+1 bytes on disk, raw and enveloped, lighter sweep).  Non-trivial = "
+                       "the log has >= 2 entries and the mutation is inside the file body (offset >= 7); distinct by (file bytes, mutation)" % LOW_CAP)
     res.cov["reader_runs"] = nreads
     res.cov["recovery_runs"] = nrecs
-    res.cov["logs"] = len(items)
-    res.cov["crc32_single_byte_checks"] = out["crc_checks"]
-    res.cov["crc32_single_byte_misses"] = len(out["crc_misses"])
+    res.cov["logs"] = len(allitems)
+    res.cov["crc32_single_byte_checks"] = out["crc_checks"] + bout["crc_checks"]
+    crc_misses = out["crc_misses"] + bout["crc_misses"]
+    res.cov["crc32_single_byte_misses"] = len(crc_misses)
     res.cov["histogram"] = hist
-    s0 = items[len(items) // 2]
+    mid = len(allitems) // 2
     res.cov["samples"] = [{"log": it["id"], "tag": it["tag"], "files": [f.hex() for f in it["files"]], "mutation": it["muts"][len(it["muts"]) // 2],
-                           "observed": o["obs"][len(it["muts"]) // 2]} for it, o in list(zip(items, out["items"]))[:2] + [(s0, out["items"][len(items) // 2])]]
+                           "observed": o["obs"][len(it["muts"]) // 2]}
+                          for it, o in list(zip(allitems, allout))[:2] + [(allitems[mid], allout[mid])] if it["muts"]]
 
     # ---- verdicts ----
     dis = sum(len(v["v_disagree"]) + len(v["v_rdisagree"]) for v in verdicts.values())
     orf = sum(len(v["v_oracle"]) + len(v["v_roracle"]) for v in verdicts.values())
-    unex = sum(len(v["v_unexplained"]) + len(v["v_runexplained"]) for v in verdicts.values())
     res.cov["model_vs_impl_disagreements"] = dis
     res.cov["oracle_failures"] = orf
-    res.cov["oracle_failures_outside_known_classes"] = unex
     res.cov["writer_tie_failures"] = sum(1 for v in verdicts.values() if not v["writer"])
 
-    if out["crc_misses"]:
-        res.violation("hash/crc32 did not detect a single changed byte: the premise crc_detects_1byte of C06_corruption_guarded is false",
-                      {"kind": "crc-hypothesis", "detail": out["crc_misses"][:5]}, no_input=True, suffix="crc")
+    if crc_misses:
+        res.violation("hash/crc32 did not detect a single changed byte: the premise crc_detects_1byte of C06_corruption is false",
+                      {"kind": "crc-hypothesis", "detail": crc_misses[:5]}, no_input=True, suffix="crc")
 
-    known = {e["signature"]: e for e in vlib.known_for(PID)}
-    reported = False
-    by_name = {"log_%d" % it["id"]: (it, o) for it, o in zip(items, out["items"])}
+    by_name = {"log_%d" % it["id"]: (it, o) for it, o in zip(allitems, allout)}
 
     def one_eval(cit):
         _, _, v = evaluate([cit], "shrink")
         return v["log_0"]
 
-    for name, v in verdicts.items():
-        it, o = by_name[name]
-        if not v["writer"] and not reported:
-            res.violation("real wal.Writer output differs from the model's file/rotation layout (log %s)" % it["id"],
-                          {"kind": "correspondence", "correspondence": TIE_NAME + " [writer]", "files": [f.hex() for f in it["files"]],
-                           "ops": [list(x) for x in it["ops"]], "maxsize": it["maxsize"]}, no_input=True, suffix="writer")
-            reported = True
-    # unexplained property failures on the implementation: concrete violations
+    # the implementation violates the property on a concrete input
     nviol = 0
     for name, v in verdicts.items():
         it, o = by_name[name]
-        for field, recovery in (("v_unexplained", False), ("v_runexplained", True)):
+        for field, recovery in (("v_oracle", False), ("v_roracle", True)):
             for j in v[field][:1]:
                 if nviol >= 3:
                     break
                 m = (it["recs"] if recovery else it["muts"])[j]
                 ob = (o["recover"] if recovery else o["obs"])[j]
-                res.violation("the real %s violates C06 on a %s of log %s (observed %s)" % (
-                    "Recovery" if recovery else "Reader.ReadAll", {"n": "intact file", "t": "truncation", "s": "substituted byte"}[m["k"]], it["id"], ob["st"]),
+                res.violation("the real %s violates C06 on %s of log %s [%s] (observed %s, %d entries)" % (
+                    "Recovery" if recovery else "Reader.ReadAll", {"n": "the intact file", "t": "a truncation", "s": "a substituted byte"}[m["k"]],
+                    it["id"], it["tag"], ob["st"], len(ob["e"])),
                     {"kind": "property-violated", "case": case_of(it, m, recovery), "observed": ob,
                      "observed_entries": [o["entries"][i] for i in ob["e"]],
                      "how_to_replay": "python3 tools/check.py C06 --replay <this file>"})
                 nviol += 1
-    # model/implementation disagreements
+    # the writer does something else than the model (accepts/refuses another set of calls, other bytes on disk)
+    for name, v in verdicts.items():
+        it, o = by_name[name]
+        if not v["writer"]:
+            res.violation("real wal.Writer differs from the model on log %s [%s]: outcome of the append calls, bytes on disk or rotation layout" % (it["id"], it["tag"]),
+                          {"kind": "correspondence", "correspondence": TIE_NAME + " [writer]", "case": case_of(it, it["muts"][0] if it["muts"] else {"f": 0, "k": "n", "p": 0, "b": 0}),
+                           "observed_outcomes": it["outcomes"], "oracle_fails_on_impl": bool(v["v_oracle"] or v["v_roracle"])},
+                          no_input=not (v["v_oracle"] or v["v_roracle"]), suffix="writer")
+            break
+    # model/implementation disagreements of the reader
     if dis and nviol == 0:
         for name, v in verdicts.items():
             it, o = by_name[name]
@@ -634,33 +737,17 @@ def run(res, tier, seed):
                 "Recovery run" if recovery else "ReadAll run", it["id"], dis),
                 {"kind": "correspondence", "correspondence": TIE_NAME, "case": case, "original_case": case_of(it, m, recovery),
                  "observed": ob, "observed_entries": [o["entries"][i] for i in ob["e"]], "disagreeing_runs": dis,
-                 "oracle_fails_on_impl": j in (v["v_roracle"] if recovery else v["v_oracle"]),
-                 "how_to_replay": "python3 tools/check.py C06 --replay <this file>"},
-                no_input=j not in (v["v_roracle"] if recovery else v["v_oracle"]), suffix="corr")
+                 "oracle_fails_on_impl": False,
+                 "how_to_replay": "python3 tools/check.py C06 --replay <this file>"}, no_input=True, suffix="corr")
             break
-    # explained property failures = known findings, when the model predicts exactly the wrong output
-    seen_sig = {}
-    for name, v in verdicts.items():
-        it, o = by_name[name]
-        for field, ufield, dfield, recovery in (("v_oracle", "v_unexplained", "v_disagree", False), ("v_roracle", "v_runexplained", "v_rdisagree", True)):
-            for j in v[field]:
-                if j in v[ufield] or j in v[dfield]:
-                    continue
-                ob = (o["recover"] if recovery else o["obs"])[j]
-                sig = SIG_PANIC if ob["st"] == "panic" else SIG_GHOST
-                seen_sig.setdefault(sig, []).append((it, (it["recs"] if recovery else it["muts"])[j], ob, o, recovery))
-    res.cov["known_class_failures"] = {k: len(vs) for k, vs in seen_sig.items()}
-    for sig, lst in seen_sig.items():
-        it, m, ob, o, recovery = lst[0]
-        if sig in known:
-            res.known_finding("%s [%d mutated files of this run; e.g. log %s, %s at offset %d -> %s]" % (
-                known[sig]["what"], len(lst), it["tag"], {"n": "intact", "t": "truncate", "s": "byte %d" % m["b"]}[m["k"]], m["p"],
-                "panic" if ob["st"] == "panic" else "entries " + json.dumps([o["entries"][i]["fp"] for i in ob["e"]])))
-        else:
-            res.violation("the real reader violates C06 in an excluded class that is not listed as an open finding (%s)" % sig,
-                          {"kind": "property-violated", "case": case_of(it, m, recovery), "observed": ob, "signature": sig,
-                           "observed_entries": [o["entries"][i] for i in ob["e"]]})
     if tier == "thorough":
+        t5 = time.time()
+        ok, detail = size_probe(params)
+        res.stage("size_probe_real_cap", t5)
+        res.cov["size_probe_real_cap"] = dict(detail, ok=ok)
+        if not ok:
+            res.violation("the writer's size test at the real cap differs from the model's arithmetic (or the oversized entry is not read back)",
+                          dict(detail, kind="property-violated", note="size-only probe, see size_probe() in tools/props/C06.py"))
         t4 = time.time()
         rc, o = vlib.sh(["timeout", "1500", "coqchk", "-silent", "-o", "-Q", os.path.join(vlib.COQ, "theories"), "Arc",
                          "-Q", os.path.join(vlib.COQ, "gen"), "ArcGen", "Arc.Wal.Props", "Arc.Wal.Obligations"], cwd=vlib.COQ, timeout=1600)
@@ -680,7 +767,7 @@ def replay(res, path):
     if not c:
         print("replay file names no concrete case:", obj.get("summary"))
         return 1
-    W.translate_params()
+    REAL_CAP[0] = W.translate_params()["MaxWALPayloadSize"]
     it = item_from_case(c, 0, "replay")
     out, logs, verdicts = evaluate([it], "replay")
     v = verdicts["log_0"]
@@ -689,7 +776,5 @@ def replay(res, path):
     print("mutation:", c["mut"], "| observed:", ob["st"], [o["entries"][i] for i in ob["e"]], "corrupted=%d" % ob["c"])
     bad_dis = bool(v["v_disagree"] or v["v_rdisagree"])
     bad_or = bool(v["v_oracle"] or v["v_roracle"])
-    unexpl = bool(v["v_unexplained"] or v["v_runexplained"])
-    print("model disagrees:", bad_dis, "| property violated by the implementation:", bad_or, "| outside the known classes:", unexpl,
-          "| writer tie ok:", v["writer"])
+    print("model disagrees:", bad_dis, "| property violated by the implementation:", bad_or, "| writer tie ok:", v["writer"])
     return 1 if (bad_dis or bad_or or not v["writer"]) else 0
